@@ -444,3 +444,33 @@ def comment_and_pi_tails_in_string_value(t0: Optional[str], t1: Optional[str], t
     root = build_node_tree(ET.ElementTree(r) if doc else r)
     elem = root if isinstance(root, ElementNode) else [c for c in root.children if isinstance(c, ElementNode)][0]
     return root.string_value == want and elem.string_value == want and _texts(elem) == want
+
+
+# --- added after round-4 seeded changes: a comment / PI object OF THE INPUT TREE passed as context item or variable is that tree's node ------
+
+T.update(parse_all({'ident_item': '(. is (/r/node())[$k], count(. | (/r/node())[$k]), root(.) is /, count(../node()), . << /r/b, count((., /r/b) intersect .))',
+                    'ident_var': '($v is (/r/node())[$k], count($v | (/r/node())[$k]), root($v) is /, count($v/../node()), $v << /r/b)'}))
+
+
+@ob(budget=200, bound='element r with a comment, a processing instruction and an element b (order chosen by the solver: comment first or PI first); the '
+                      'comment or the PI OBJECT is passed as context item or as a variable: it is identical to the node selected by a path '
+                      '(is, |, intersect, root(), parent axis, <<)',
+    funcs=['elementpath/xpath_context.py:XPathContext.get_context_item', TB + ':build_node_tree'])
+def tree_objects_as_items_keep_identity(pi_first: bool, use_pi: bool, as_var: bool) -> bool:
+    """
+    post: _
+    """
+    r = ET.Element('r')
+    c = ET.Comment('c')
+    p = ET.ProcessingInstruction('p', 'q')
+    for n in ((p, c) if pi_first else (c, p)):
+        r.append(n)
+    b = ET.SubElement(r, 'b')
+    obj = p if use_pi else c
+    k = 1 if (use_pi == pi_first) else 2
+    doc = ET.ElementTree(r)
+    if as_var:
+        got = L(T['ident_var'].evaluate(XPathContext(doc, variables={'v': obj, 'k': k})))
+        return got == [True, 1, True, 3, True]
+    got = L(T['ident_item'].evaluate(XPathContext(doc, item=obj, variables={'k': k})))
+    return got == [True, 1, True, 3, True, 1]
